@@ -189,4 +189,70 @@ StreamAccepts(e, payload, tw, skip, mark, out, final) ==
 (* Writer: CEncodedStreamWriter(stream, e, addBom).Write(text)* = BOM + encoding of the concatenated text *)
 WriterBytes(e, addBom, cps) == (IF addBom THEN Bom(e) ELSE <<>>) \o EncBytes(e, cps)
 
+(* The writer as a state machine.                                                                        *)
+(*  A: the only state is the byte string emitted so far.  Write(fragment) appends the encoding of the     *)
+(*     fragment iff encoding succeeds; a rejected Write (UnexpectedEnd: the fragment ends inside a        *)
+(*     sequence; InvalidSequence under ThrowError) emits NOTHING and leaves no trace.                     *)
+(*  M: the code keeps a scratch string per target width: Write clears it, Encode() appends to it (the     *)
+(*     valid head of a rejected fragment stays there), on success the scratch is written to the stream.   *)
+(*     clearBefore = TRUE is the code; FALSE ("clear after the successful write") is the variant that     *)
+(*     leaks the head of a rejected fragment into the next accepted Write.                                *)
+(* A fragment is a sequence of code units of source width sw (possibly ill-formed).                        *)
+WEncode(e, sw, units, skip) == MDecodeUnits(sw, units, WidthOf(e), skip, DefaultMark(WidthOf(e)))
+
+MWriterInit(e, addBom) == [emitted |-> IF addBom THEN Bom(e) ELSE <<>>, scratch |-> <<>>]
+
+MWriterWrite(m, e, sw, units, skip, clearBefore) ==
+  IF sw = 8 /\ e = "Utf8" THEN [m |-> [m EXCEPT !.emitted = @ \o units], code |-> "Success"]       \* written "as is"
+  ELSE LET s0 == IF clearBefore THEN <<>> ELSE m.scratch
+           r  == WEncode(e, sw, units, skip)
+           s1 == s0 \o r.out
+       IN IF r.code = "Success"
+          THEN [m |-> [emitted |-> m.emitted \o UnitsToBytes(e, s1), scratch |-> IF clearBefore THEN s1 ELSE <<>>], code |-> "Success"]
+          ELSE [m |-> [m EXCEPT !.scratch = s1], code |-> r.code]
+
+\* A, as a relation on one call (the segmentation of bad runs under Skip is free, hence a relation):
+\* `delta` = the bytes this call added to the stream
+WriteAccepts(e, sw, units, skip, code, delta) ==
+  LET w == WidthOf(e) IN
+  IF code # "Success"
+  THEN /\ delta = <<>>
+       /\ IF code = "UnexpectedEnd" THEN \E i \in 1..Len(units) : TruncatedTail(sw, units, i)
+          ELSE code = "InvalidSequence" /\ ~skip /\ sw # w /\ ~AllValid(Canon(sw, units))
+  ELSE LET d == BytesToUnits(e, delta) IN
+       /\ d.rest = 0
+       /\ IF sw = w THEN d.units = units          \* same width: passed through by design
+          ELSE Explains([w |-> sw, u |-> units, tw |-> w, skip |-> skip, mark |-> DefaultMark(w), allowUE |-> TRUE, partial |-> FALSE, h |-> <<>>],
+                        [out |-> d.units, code |-> "Success", it |-> -1, cnt |-> -1], {})
+
+-----------------------------------------------------------------------------
+(* DetectEncoding(std::istream&, skipBomWhenFound): the stream position is part of the state.            *)
+(* The caller has already consumed origPos bytes.  M: read up to 128 bytes, detect on them, clear eof,   *)
+(* seek to origPos + BOM size (skip) or back to origPos.  seekFromOrig = TRUE is the code; FALSE is the   *)
+(* variant that seeks from the beginning of the stream.                                                   *)
+DetectProbe == 128
+MDetectStream(stream, origPos, skip, fix, seekFromOrig) ==
+  LET avail == SubSeq(stream, origPos + 1, MinOf(Len(stream), origPos + DetectProbe))
+      d     == MDetect(avail, fix.detect)
+  IN [utf |-> d.utf,
+      pos |-> IF ~skip THEN origPos
+              ELSE IF Len(avail) = d.off THEN origPos + Len(avail)          \* nothing but the BOM was read: no seek
+              ELSE IF seekFromOrig THEN origPos + d.off ELSE d.off]
+
+\* A: afterwards the stream stands at the original position, behind the BOM iff one was found and skipping was requested
+DetectPosOK(origPos, skip, bomFound, bomSize, pos) == pos = origPos + (IF skip /\ bomFound THEN bomSize ELSE 0)
+
+-----------------------------------------------------------------------------
+(* CSV through the stream entry point (LoadObject<CsvArchive>(rows, istream)): the rows read are the rows   *)
+(* written, whatever the length of the encoded stream relative to the reader's chunk size.                  *)
+(* Plain values only (no separator, quote or line break inside), so the rendering needs no quoting.        *)
+CRLF == <<13, 10>>
+RECURSIVE JoinLines(_, _, _)
+JoinLines(lines, k, finalBreak) ==
+  IF k > Len(lines) THEN <<>>
+  ELSE lines[k] \o (IF k < Len(lines) \/ finalBreak THEN CRLF ELSE <<>>) \o JoinLines(lines, k + 1, finalBreak)
+CsvLine(vals) == vals[1] \o <<44>> \o vals[2]
+CsvHeaderAB == << <<97>>, <<98>> >>        \* header "a,b"
+CsvRender(header, rows, finalBreak) == JoinLines(<<CsvLine(header)>> \o [k \in DOMAIN rows |-> CsvLine(rows[k])], 1, finalBreak)
+
 =============================================================================
